@@ -25,9 +25,9 @@ Theorem C13_parse_scope_balanced : forall f e S, pexec (pacts f e) S = S.
 Proof. exact parse_scope_balanced. Qed.
 
 Example C13_nonvacuous :
-  let S := [[(101%N, VNum 2)]; [(102%N, VStr [97%N])]] in
-  let e := EFilter (EList [ECtx [(103%N, ENum 1)]; ECtx [(103%N, ENum 5)]]) (EBin Gt (EName 103%N) (EName 101%N)) in
-  run_impl 20 S e = (VCtx [(103%N, VNum 5)], S).
+  let S := [[(101%N, vnum 2)]; [(102%N, VStr [97%N])]] in
+  let e := EFilter (EList [ECtx [(103%N, enum 1)]; ECtx [(103%N, enum 5)]]) (EBin Gt (EName 103%N) (EName 101%N)) in
+  run_impl 20 S e = (VCtx [(103%N, vnum 5)], S).
 Proof. vm_compute. reflexivity. Qed.
 
 Print Assumptions C13_stack_restored.
